@@ -162,3 +162,25 @@ def matrix_solve(scn, m, clause):
                     print('REPLAY: VIOLATION-CONFIRMED constrained entries differ from their prescribed values %s' % want)
                     return
     print('REPLAY: not reproduced on the inputs tried')
+
+
+def solve_constraints():
+    """Real System.solve_constraints on tiny quadratic functionals whose hessian has columns with negative / small entries."""
+    from nutils import solver, function, mesh
+    import numpy
+    for signs in ([1., -1.], [-1., -1.], [1., 1e-20], [-1., 0.]):
+        u = function.field('u', numpy.array([1., 1.]) * 0 + 1, shape=(2,)) if False else function.Argument('u', (2,))
+        f = sum(s * (u[i] - (i + 1.))**2 for i, s in enumerate(signs))
+        try:
+            sys_ = solver.System(f, trial='u')
+            cons = sys_.solve_constraints(droptol=1e-12)
+        except Exception as e:
+            print('functional with curvatures %s raised %s: %s' % (signs, type(e).__name__, e))
+            continue
+        got = numpy.isnan(cons['u'])
+        want = numpy.array([abs(2 * s) <= 1e-12 for s in signs])
+        print('curvatures %s -> constraints %s' % (signs, cons['u']))
+        if (got != want).any():
+            print('REPLAY: VIOLATION-CONFIRMED entries left NaN %s, entries without influence above droptol %s' % (got.tolist(), want.tolist()))
+            return
+    print('REPLAY: not reproduced on the functionals tried')
